@@ -170,7 +170,7 @@ def bulk_job(arg):
 URLISH = ["/r/ready", "/r/ready?", "/r/ready#", "/r/ready;", "/r/ready?x=1", "/r/ready#frag", "/r/a\tb", "/r/ab", "/r/a b", "/r/a%20b", "/r/a+b", "/q/x;y/z", "/q/x/z", "/q/x;y;/z", "/w/a:b", "/w/a", "/w/'q'", "/w/\"q\"", "/w/q",
           "/u/caf\u00e9", "/u/cafe\u0301", "/u/A", "/u/a"]
 
-OPS = ["store", "has", "fetch", "sync", "fetch_paths", "reopen", "has_absent", "fetch_absent", "fetch_paths_absent", "sync_other", "resync"]
+OPS = ["store", "has", "fetch", "sync", "fetch_paths", "reopen", "has_absent", "fetch_absent", "fetch_paths_absent", "sync_other", "resync", "lose_blob_file"]
 
 
 def gen_sequence(rng, n, paths, nkeys=14):
@@ -223,6 +223,17 @@ def seq_job(arg):
                         val = VALUES[a % len(VALUES)]
                         st.store_blob(key, val, None)
                         blobs[key] = val
+                    elif op == "lose_blob_file":
+                        # the file of a blob disappears while its metadata file stays (large files pruned from the blob
+                        # directory, a partial restore): the key is absent until it is stored again
+                        key = SM.key_for(a)
+                        bf = os.path.join(os.path.realpath(os.path.join(root, "internal", "blobs")), key)
+                        if kind in ("local", "local_lru", "local_linked") and key in blobs and key not in pmap.values() and os.path.isfile(bf) and os.path.isfile(bf + ".meta"):
+                            os.remove(bf)
+                            del blobs[key]
+                            if kind == "local_lru":
+                                st = SM.make_store(kind, root, reopen=True)  # (a new process: nothing of the lost blob is cached)
+                            rep.count("blob_files_lost")
                     elif op in ("has", "has_absent"):
                         key = SM.key_for(a if op == "has" else "absent%d" % a)
                         r = st.has_blob(key)
@@ -534,6 +545,9 @@ def run(tier, seed):
             for extra in ([], [((pi + 1) % len(spaths), 3)]):
                 for mid in ([], [("fetch_paths", pi)], [("reopen", 0)]):
                     seqs.append([("sync", [(pi, 1)] + extra), ("sync_other", [(pi, 2)])] + mid + [("resync", 0), ("fetch_paths", pi)])
+        # a blob file lost while its metadata stays, then the key stored again
+        for kk in range(4):
+            seqs.append([("store", kk), ("fetch", kk), ("lose_blob_file", kk), ("has", kk), ("store", kk), ("has", kk), ("fetch", kk), ("sync", [(0, kk)]), ("fetch_paths", 0)])
         for i in range(0, len(seqs), 50):
             jobs.append(("seq", (kind, seqs[i : i + 50], spaths)))
     # API level
